@@ -150,4 +150,28 @@ example : ((TagState.mk none [(['a', 'b'], ['a'])]).injectLE ['\n'] ['a', 'b', '
 example : (TagState.mk none [(['a', 'b'], ['X'])]).create ['a'] = none := by decide
 example : PrefixFree [(['a'], ['X']), (['b'], ['Y'])] := by simp [PrefixFree, related, List.isPrefixOf]
 
+/-- **the tag name is the whole first argument of the directive** (the trimmed rest of the line: inner blanks,
+comment closers and all - C15 says what that argument is): an executed `tag` directive succeeds exactly when
+`create` accepts that argument, produces no output, and then waits under exactly that name -/
+theorem tag_name_is_the_whole_argument {W : Type} (Wd : World W) (mode : Mode) (le : Str) (s : PpState W) (d : Directive)
+    (hm : mode ≠ .clean) (hty : d.ty = .tag) (hpm : s.pm = .exec) :
+    (execDirective Wd mode le s d = none ↔ s.tags.create (d.args.headD []) = none) ∧
+    (∀ s' o, execDirective Wd mode le s d = some (s', o) →
+      o = none ∧ s'.tags = { s.tags with listening := some (d.args.headD []) } ∧ s'.w = s.w ∧ s'.pm = s.pm) := by
+  have key : execDirective Wd mode le s d =
+      (match s.tags.create (d.args.headD []) with
+       | none => none
+       | some t' => some ({ s with tags := t' }, none)) := by
+    simp only [execDirective, hm, hty, hpm, PpMode.isExecute, if_false, if_true, Bool.not_true, Bool.false_eq_true]
+    cases s.tags.create (d.args.headD []) <;> simp
+  rw [key]
+  cases hc : s.tags.create (d.args.headD []) with
+  | none => simp
+  | some t' =>
+    refine ⟨by simp, ?_⟩
+    intro s' o h
+    simp only [Option.some.injEq, Prod.mk.injEq] at h
+    obtain ⟨rfl, rfl⟩ := h
+    exact ⟨rfl, create_ok _ _ _ hc, rfl, rfl⟩
+
 end C14
